@@ -54,6 +54,20 @@ def equations(tier, seed):
         eqs.append(bin_(o, A, ("paren", ("neg", B))))
         eqs.append(("neg", bin_(o, A, B)))
         eqs.append(("neg", ("paren", bin_(o, A, B))))
+    # negative numeric literals (one token in the grammar), bare and parenthesised, in every operand position
+    NM2, NM05 = ("num", "-2"), ("num", "-0.5")
+    for o in OPS:
+        for lit in (NM2, NM05):
+            eqs.append(bin_(o, ("paren", lit), N2))
+            eqs.append(bin_(o, ("paren", lit), A))
+            eqs.append(bin_(o, A, ("paren", lit)))
+            eqs.append(bin_(o, N3, ("paren", lit)))
+        eqs.append(bin_("*", bin_(o, ("paren", NM2), N2), A))
+        eqs.append(bin_("+", A, bin_(o, ("paren", NM05), N2)))
+    eqs.append(("call", "MAX", bin_("^", ("paren", NM2), N2), A))
+    eqs.append(("if", ("cmp", ">", bin_("^", ("paren", NM2), N2), A), B, C))
+    eqs.append(("call", "ABS", ("paren", NM2)))
+    eqs.append(bin_("^", ("paren", ("paren", NM2)), N2))
     # conditionals
     cmps = [("cmp", op, A, B) for op in X.CMP]
     for cnd in cmps:
